@@ -845,6 +845,17 @@ func TestGrid(t *testing.T) {
 			}
 		}
 	}
+	vk.MarkExhaustive("Of on all subsets of {0,1,62,63,64,65,127,128} x n in {absent, MinInt32, -1, 0, 1, 63, 64, 65, 128, 129, 130, 192, 1000}")
+}
+
+func TestProp(t *testing.T) { checker.Prop(t, genCase) }
+
+func FuzzProp(f *testing.F) { checker.Fuzz(f, genCase) }
+
+// TestLast runs at the very end of the process: huge inputs (the maximum bitmap / string) and the regression cases of that size come last, so that
+// what they leave behind in the library cannot mask anything the ordinary cases would have met.
+func TestLast(t *testing.T) {
+	vk.SetPhase("last")
 	// the top of the int32 range: results of exactly 2^25 words (untouched pages cost nothing)
 	top := int32(math.MaxInt32)
 	for _, c := range []Case{
@@ -869,9 +880,5 @@ func TestGrid(t *testing.T) {
 	for v := 0; v < gen.MaxVariants; v++ {
 		checker.Run(t, Case{Op: "maxbitmap", Max: v, Class: "grid-maximum"})
 	}
-	vk.MarkExhaustive("Of on all subsets of {0,1,62,63,64,65,127,128} x n in {absent, MinInt32, -1, 0, 1, 63, 64, 65, 128, 129, 130, 192, 1000}")
+	checker.RegressLast(t)
 }
-
-func TestProp(t *testing.T) { checker.Prop(t, genCase) }
-
-func FuzzProp(f *testing.F) { checker.Fuzz(f, genCase) }
